@@ -140,8 +140,10 @@ def run(ctx: Ctx) -> None:
                 if not isinstance(ln, dict) or "shots" not in ln:
                     return
                 ctx.evaluations += 1
-                shots = [QsysShot([(tag_str(t), val_py(v)) for t, v in s]) for s in ln["shots"]]
-                r = QsysResult(shots)
+                rows = [[(tag_str(t), val_py(v)) for t, v in s] for s in ln["shots"]]
+                shots = [QsysShot(row) for row in rows]
+                # shots may be given as QsysShot objects or as plain rows of (tag, value) pairs, empty rows included, also through an iterator
+                r = QsysResult(shots) if (len(rows) + sum(map(len, rows))) % 2 else QsysResult(iter([list(row) for row in rows]))
                 if len(ln["shots"]) >= 2:
                     ctx.nontriv(ln["shots"] + [ln["sn"], ln["sl"]])
                 exp = ln["bitstrings"]
